@@ -443,8 +443,66 @@ def job_notation(cfg):
     return res
 
 
+def job_tilted(cfg):
+    """2-D law = plane-stress / plane-strain reduction of the 3-D law when the material axes are tilted out of the plane
+    (exact rational 3-D frames); one modulus symbolic, the others concrete."""
+    from EasyFEA import Models
+
+    res = JobResult(cfg)
+    c = new_context()
+    facade.install()
+    law, ps = cfg["law"], cfg["planeStress"]
+    a1, a2 = [np.array([float(Fraction(x).limit_denominator(1000)) for x in ax]) for ax in cfg["axes"]]
+    E = c.var("E_l", 250, 350, shadow=300)
+    res.symbols = 1
+    label = f"{law} dim=2 planeStress={ps} tilted axes {cfg['axes'][0]}"
+    res.functions |= {"_Elastic._Apply_basis_transformation", "Models._utils.Get_Pmat", "Models._utils.Apply_Pmat"}
+
+    def make(dim, Ev, planeStress=True):
+        if law == "trans":
+            return Models.Elastic.TransverselyIsotropic(dim, Ev, 120.0, 70.0, 0.2, 0.35, axis_l=a1, axis_t=a2, planeStress=planeStress)
+        return Models.Elastic.Orthotropic(dim, Ev, 150.0, 100.0, 40.0, 50.0, 60.0, 0.2, 0.25, 0.3, axis_1=a1, axis_2=a2, planeStress=planeStress)
+
+    mark = c.mark()
+    raised = None
+    with facade.symbolic():
+        try:
+            m2 = make(2, E, ps)
+            C2, S2 = m2.C, m2.S
+            m3 = make(3, E)
+            C3, S3 = m3.C, m3.S
+        except AssertionError as e:
+            raised = e
+    pcs = [p_ for p_ in c.pc_since(mark) if not any(c.kind.get(v) == "aux" for v in p_.vars())]
+    res.paths, res.path_conditions = 1, len(pcs)
+
+    def replay(env):
+        Ef = fval(c, env, E)
+        try:
+            A, B = make(2, Ef, ps), make(3, Ef)
+            if ps:
+                err = float(np.abs(A.S - B.S[np.ix_(IDX2, IDX2)]).max() / np.abs(A.S).max())
+            else:
+                err = float(np.abs(A.C - B.C[np.ix_(IDX2, IDX2)]).max() / np.abs(A.C).max())
+        except AssertionError as e:
+            return True, {"E": Ef, "code_raised": repr(e)[:200]}
+        return err > 1e-9, {"E_l": Ef, "relative_difference_2D_law_vs_reduction_of_3D_law": err}
+
+    if raised is not None:
+        res.record(f"{label} constructor raised", Outcome("cex", env=dict(c.shadow), how="shadow"), replay, key=f"{label} reduction")
+        return res
+    scale = Fraction(1, 10 ** 4)  # compliance entries ~1e-2 .. 1e-3
+    if ps:
+        identity_check(res, S2, S3[np.ix_(IDX2, IDX2)], pcs, f"{label}: S_2D = in-plane block of the 3-D compliance (zero out-of-plane stress)", replay, tol=TOL * scale, key=f"{label} reduction")
+    else:
+        identity_check(res, C2, C3[np.ix_(IDX2, IDX2)], pcs, f"{label}: C_2D = in-plane block of the 3-D stiffness (zero out-of-plane strain)", replay, tol=TOL * 1000, key=f"{label} reduction")
+    res.samples.append({"config": label, "obligation": "for all E_l in [250,350]: 2-D law equals the reduction of the 3-D law with the same tilted axes (rational identity in E_l, tolerance)"})
+    res.stubs |= facade.USED_STUBS
+    return res
+
+
 def job(cfg):
-    return {"iso": job_iso, "trans": job_trans, "ortho": job_ortho, "frame": job_frame, "pmat": job_pmat_unnormalised, "notation": job_notation}[cfg["kind"]](cfg)
+    return {"tilted": job_tilted, "iso": job_iso, "trans": job_trans, "ortho": job_ortho, "frame": job_frame, "pmat": job_pmat_unnormalised, "notation": job_notation}[cfg["kind"]](cfg)
 
 
 def main():
@@ -461,6 +519,11 @@ def main():
     for ax in axes:
         configs.append({"kind": "frame", "axes": ax})
     configs.append({"kind": "pmat"})
+    tilted = [((2 / 7, 3 / 7, 6 / 7), (3 / 7, -6 / 7, 2 / 7)), ((1 / 9, 4 / 9, 8 / 9), (4 / 9, 7 / 9, -4 / 9))]
+    for law in ("trans", "ortho"):
+        for ps in (True, False):
+            for ax in (tilted if tier == "thorough" else tilted[:1]):
+                configs.append({"kind": "tilted", "law": law, "planeStress": ps, "axes": ax})
     results = harness.run_jobs(job, configs)
     harness.finish(
         PID, results, t0=t0,
